@@ -18,7 +18,7 @@ func init() {
 			"> 0 and has a positive divisor (a guarded duration, or the window length whose every store is a positive constant), and the complementary branch yields the constant 0; " +
 			"C20.started - each of the 8 public getters reaches the meter only under 'started', the other branch panics; C20.scale - the four bitrate getters apply the same x8 /1000 " +
 			"to the matching underlying window, the four request-rate getters none; C20.window - the per-window numerator is (observed - previous count) of the same receiver, the divisor its " +
-			"own interval, count/lastSample are updated on every path that consumes the sample, each getter reads its own window, and all three windows are sampled. " +
+			"own interval, count/lastSample are updated on every path that consumes the sample and no path that touched the window answers false (doSample reads false as 'not due yet' and ends the cascade), each getter reads its own window, and all three windows are sampled. " +
 			"Not decided: numerical equality with growth/window for all observation histories (runtime arithmetic).",
 		Assume: []string{"time.Duration constants are evaluated by go/types", "float64 division of a positive by a positive finite value is finite and positive"},
 		Run:    runC20,
@@ -486,6 +486,58 @@ func runC20(c *Ctx) {
 			}
 			R.Check(ok, "C20.window", "kxps|(*sample).sample|updates-"+f, pos,
 				f+" is updated on every path that consumes the sample", "a path returns true without updating "+f+": the next rate would span more than one window", nil)
+		}
+		// the converse, which doSample relies on: "false" means "this window is not due yet, nothing happened" - it ends the
+		// cascade over the longer windows, so a path that changed the window's state (directly or through a method of
+		// the window) must not answer false
+		if sampleS, isS := sampleT.Underlying().(*types.Struct); isS {
+			writes := func(fn *ssa.Function) bool {
+				w := false
+				core.EachInstr(fn, func(in ssa.Instruction) {
+					if st, ok := in.(*ssa.Store); ok {
+						if fv := core.FieldVar(st.Addr); fv != nil {
+							for i := 0; i < sampleS.NumFields(); i++ {
+								if sampleS.Field(i) == fv {
+									w = true
+								}
+							}
+						}
+					}
+				})
+				return w
+			}
+			touches := func(in ssa.Instruction) bool {
+				switch x := in.(type) {
+				case *ssa.Store:
+					if fv := core.FieldVar(x.Addr); fv != nil {
+						for i := 0; i < sampleS.NumFields(); i++ {
+							if sampleS.Field(i) == fv {
+								return true
+							}
+						}
+					}
+				case *ssa.Call:
+					if cal := x.Call.StaticCallee(); cal != nil && cal != smp && core.InModule(cal) && len(cal.Blocks) > 0 && len(x.Call.Args) > 0 && x.Call.Args[0] == ssa.Value(smp.Params[0]) {
+						return writes(cal)
+					}
+				}
+				return false
+			}
+			ok := true
+			var bad *ssa.Return
+			for _, pr := range returnsFromEntry(smp, touches) {
+				cst, isC := pr.ops[0].(*ssa.Const)
+				if isC && cst.Value != nil && cst.Value.String() == "false" && pr.passed {
+					ok, bad = false, pr.ret
+				}
+			}
+			pos := P.Pos(smp.Pos())
+			if bad != nil {
+				pos = P.InstrPos(bad)
+			}
+			R.Check(ok, "C20.window", "kxps|(*sample).sample|false-means-untouched", pos,
+				"a window answers false only when it left its state alone (not due yet)",
+				"a path changes the window's state and answers false: doSample reads false as 'not due yet' and skips the longer windows, which then keep a stale rate and a stale baseline", nil)
 		}
 		// stored count is the observed counter
 		okc := false
